@@ -24,11 +24,13 @@ VARIABLES l,        \* next trace line to consume (line 1 is the header)
           ppoll,    \* the main loop still owes its poll after the line
           silent,   \* silent steps since the last logged action
           listing,  \* what the model says the last `jobs` printed: set of <<id, status>>
-          target    \* gid the last fg / bg / ctrlz action was aimed at (0 = none)
-tvars == <<vars, l, phase, ppoll, silent, listing, target>>
+          target,   \* gid the last fg / bg / ctrlz action was aimed at (0 = none)
+          pint      \* processes that were stopped when Ctrl-C reached their group: the SIGINT stays pending and ends them
+                    \* as soon as they are continued (kernel behaviour, observed in recorded sessions)
+tvars == <<vars, l, phase, ppoll, silent, listing, target, pint>>
 
 TInit == /\ Init /\ TLCSet(1, 1)
-         /\ l = 2 /\ phase = "act" /\ ppoll = FALSE /\ silent = 0 /\ listing = {} /\ target = 0
+         /\ l = 2 /\ phase = "act" /\ ppoll = FALSE /\ silent = 0 /\ listing = {} /\ target = 0 /\ pint = {}
 
 Ev == Rec[l]
 IsEv(name) == l <= Len(Rec) /\ phase = "act" /\ Ev.ev = name
@@ -42,7 +44,7 @@ KUnch == UNCHANGED <<jobs, reapm, stopm, contm, killm, mode, fg, pend, tty, know
 \* ---------------- logged user / driver actions ----------------
 TLaunch == /\ IsEv("launch") /\ Launch(Ev.d)
            /\ ppoll' = JobDefs[Ev.d].bg      \* a background launch returns to the main loop at once
-           /\ target' = 0 /\ Acted /\ UNCHANGED listing
+           /\ target' = 0 /\ Acted /\ UNCHANGED <<listing, pint>>
 
 \* Ctrl-Z / Ctrl-C: the terminal sends SIGTSTP / SIGINT to its foreground process group
 TKey(name, newst, newrep) ==
@@ -51,14 +53,16 @@ TKey(name, newst, newrep) ==
   /\ krep' = [p \in Pids |-> IF p \in GroupPids(tty) /\ kst[p] = "running" THEN newrep ELSE krep[p]]
   /\ last' = [a |-> name] /\ KUnch
   /\ target' = tty /\ Acted /\ UNCHANGED <<ppoll, listing>>
-TCtrlZ == TKey("ctrlz", "stopped", "stopped")
-TCtrlC == TKey("ctrlc", "zombieK", "none")
+TCtrlZ == TKey("ctrlz", "stopped", "stopped") /\ UNCHANGED pint
+TCtrlC == TKey("ctrlc", "zombieK", "none") /\ pint' = pint \cup {p \in GroupPids(tty) : kst[p] = "stopped"}
 
 TExt == /\ l <= Len(Rec) /\ phase = "act" /\ Ev.ev \in {"extstop", "extcont", "extkill", "extexit"}
         /\ \/ Ev.ev = "extstop" /\ KStop(Ev.p)
-           \/ Ev.ev = "extcont" /\ KCont(Ev.p)
+           \/ Ev.ev = "extcont" /\ Ev.p \notin pint /\ KCont(Ev.p)
+           \/ Ev.ev = "extcont" /\ Ev.p \in pint /\ KKill(Ev.p)          \* the pending SIGINT is delivered
            \/ Ev.ev = "extkill" /\ KKill(Ev.p)
            \/ Ev.ev = "extexit" /\ KExit(Ev.p)
+        /\ pint' = pint \ {Ev.p}
         /\ target' = 0 /\ Acted /\ UNCHANGED <<ppoll, listing>>
 
 TablePoll == IF \E i \in JobIds : jobs[i] # NoJob
@@ -67,24 +71,24 @@ TablePoll == IF \E i \in JobIds : jobs[i] # NoJob
 
 \* empty line at the prompt: the main loop polls
 TEnter == /\ IsEv("enter") /\ mode = "prompt"
-          /\ UNCHANGED vars /\ ppoll' = TRUE /\ target' = 0 /\ Acted /\ UNCHANGED listing
+          /\ UNCHANGED vars /\ ppoll' = TRUE /\ target' = 0 /\ Acted /\ UNCHANGED <<listing, pint>>
 
 \* jobs builtin: polls (if the table is not empty), prints, then the main loop polls again
 TJobs == /\ IsEv("jobs") /\ mode = "prompt"
          /\ TablePoll
          /\ listing' = Listing(jobs')
-         /\ ppoll' = TRUE /\ target' = 0 /\ Acted
+         /\ ppoll' = TRUE /\ target' = 0 /\ Acted /\ UNCHANGED pint
 
 TBuiltin == /\ l <= Len(Rec) /\ phase = "act" /\ Ev.ev \in {"fg", "bg"} /\ mode = "prompt"
             /\ IF Ev.id \in JobIds /\ jobs[Ev.id] # NoJob
                THEN Builtin(Ev.ev, Ev.id) /\ ppoll' = FALSE /\ target' = jobs[Ev.id].gid
                ELSE UNCHANGED vars /\ ppoll' = TRUE /\ target' = 0     \* "no such job"
-            /\ Acted /\ UNCHANGED listing
+            /\ Acted /\ UNCHANGED <<listing, pint>>
 
 \* ---------------- silent internal steps of the shell ----------------
 CanSilent == l <= Len(Rec) /\ phase = "settle" /\ silent < MaxSilent
 SStep(A) == /\ CanSilent /\ A
-            /\ silent' = silent + 1 /\ UNCHANGED <<l, phase, listing, target>>
+            /\ silent' = silent + 1 /\ UNCHANGED <<l, phase, listing, target, pint>>
 SFgStep == SStep(\E p \in Pids : FgStep(p)) /\ ppoll' = (mode' = "prompt")
 SEchild == SStep(FgEchild) /\ ppoll' = TRUE
 SResume == SStep(Resume) /\ ppoll' = (mode' = "prompt")
@@ -128,7 +132,7 @@ Observe == /\ l <= Len(Rec) /\ phase = "settle" /\ Quiescent
            /\ IF PropOK(Ev.obs) THEN TRUE ELSE PrintT(<<"PROPFAIL", l>>) /\ FALSE
            /\ ObsOK(Ev.obs)
            /\ l' = l + 1 /\ phase' = "act" /\ silent' = 0
-           /\ UNCHANGED <<vars, ppoll, listing, target>>
+           /\ UNCHANGED <<vars, ppoll, listing, target, pint>>
 
 TNext == TLaunch \/ TCtrlZ \/ TCtrlC \/ TExt \/ TEnter \/ TJobs \/ TBuiltin
          \/ SFgStep \/ SEchild \/ SResume \/ SPoll \/ Observe
